@@ -51,18 +51,28 @@ def gen(ctx):
         subs = None if sublens is None else [nd_spec(small_values(r, (n,) + tuple(atom), dtype_str(nt, bo))) for n in sublens]
         G.append(dict(dtype0=dtype_str(nt, bo), atom=list(atom), indextype=r.choice(INDEXTYPES), subs=subs,
                       sublens=sublens, dtype=dtype_str(dt, 'little') if dt else None,
-                      metadata=r.choice([None, {'a': 1}]), mutations=r.sample(muts[:2] + muts[3:], 2)))
+                      metadata=r.choice([None, {'a': 1}]), mutations=r.sample(muts[:2] + muts[3:], 2),
+                      onto=r.random() < 0.3))
     for kind in ('Array', 'RaggedArray'):
         for ctype in ('xz', 'gz', 'bz2', 'zip', ''):
             for ow in (False, True):
                 for existing in (False, True):
                     for explicit in (False, True):
-                        Z.append(dict(kind=kind, ctype=ctype, overwrite=ow, existing=existing, explicit=explicit))
+                        Z.append(dict(kind=kind, ctype=ctype, overwrite=ow, existing=existing, explicit=explicit,
+                                      userfiles=(len(Z) % 3 == 0)))
     return A, G, Z
 
 
 def run(ctx):
     A, G, Z = gen(ctx)
+    for ob in ctx.run_impl([dict(kind='copy')], 'big', shards=1, timeout=1800):
+        key = dict(kind='copy of an 85 MB array, default chunk length')
+        if 'harness_error' in ob:
+            ctx.fail('harness-error', key, observed=ob)
+        else:
+            ctx.seen(key); ctx.count('big-copy'); ctx.evaluations += 1
+            if not ob['ok']:
+                ctx.fail('copy-differs:big', key, expected='the source values', observed=ob['detail'])
     obsA = ctx.run_impl(A, 'copy_array', timeout=2400)
     obsG = ctx.run_impl(G, 'copy_ragged', timeout=2400)
     obsZ = ctx.run_impl(Z, 'archive', timeout=2400)
